@@ -11,10 +11,14 @@
   3. the Go map of `newLogTable` as an association list.
   4. the logarithm table over an arbitrary lawful record with a primitive generator.
   5. extfield: `Ext.mulT`, `Ext.invT`, `Ext.powT`, `Ext.traceT`.
+  6. an expression language over the field operations.
+  7. `step`/`runOps` of Model/Hist.lean on the element-level operations: environments whose field
+     records agree give the same stores and replies.
 -/
 import Algobra.Model.Tables
 import Algobra.Proofs.Assemble
 import Algobra.Proofs.Strings
+import Algobra.Proofs.Step
 import Mathlib.Data.List.Induction
 
 namespace Algobra
@@ -617,5 +621,267 @@ theorem Expr.eval_agree {α : Type} {F F' : FOps α} {V : α → Prop} (hA : Ops
       simp only [Option.map_some, hA.trace x hx, true_and]
       intro v h; cases h; exact hC.trace x hx
 
+/-! ## 7. histories of element-level operations (`step` of Model/Hist.lean) -/
+
+/-- the element-level operations of the line protocol whose results stay valid without any
+    assumption on the constructors that read external data (`u s str enc`, `SetUnsigned`) -/
+def elemOp : Op → Bool
+  | .eCtor _ _ how _ => how == "zero" || how == "one" || how == "gen" || how == "foreign"
+  | .eBin .. | .eUn .. | .ePow .. | .eIn .. | .eProd .. | .eSetNeg _ | .eEq .. | .eShow _ => true
+  | .tables .. => true
+  | _ => false
+
+section Step
+variable {α : Type} {env env' : Env α} {V : Nat → α → Prop}
+
+/-- two environments whose field objects agree (index by index) on closed sets `V i` -/
+structure EnvAgree (env env' : Env α) (V : Nat → α → Prop) : Prop where
+  agree : ∀ i, OpsAgree (env.fld i) (env'.fld i) (V i)
+  closed : ∀ i, Closed (env.fld i) (V i)
+
+/-- every element register holds a valid representation of its home field -/
+def StoreOK (V : Nat → α → Prop) (s : St α) : Prop :=
+  ∀ k r, St.getL s.es k = some r → V r.home r.val
+
+theorem StoreOK.setE {s : St α} (hs : StoreOK V s) (d : Nat) (r : EReg α) (hr : V r.home r.val) :
+    StoreOK V { s with es := St.setL s.es d r } := by
+  intro k r' hk
+  rw [St.getL_setL] at hk
+  split at hk
+  · cases hk; exact hr
+  · exact hs k r' hk
+
+variable (h : EnvAgree env env' V)
+include h
+
+theorem showE_eq (r : EReg α) : showE env' r = showE env r := by
+  unfold showE fld
+  rw [(h.agree r.home).enc]
+
+theorem eGet_eq (s : St α) (k : Nat) : eGet env' s k = eGet env s k := by
+  unfold eGet F0
+  rw [(h.agree 0).zero]
+
+theorem eGet_ok {s : St α} (hs : StoreOK V s) (k : Nat) : V (eGet env s k).home (eGet env s k).val := by
+  unfold eGet
+  cases hg : St.getL s.es k with
+  | none => exact (h.closed 0).zero
+  | some r => exact hs k r hg
+
+theorem eCheck_eq (a b : EReg α) : eCheck env' a b = eCheck env a b := by
+  unfold eCheck fld
+  rw [(h.agree a.home).zero]
+
+theorem eBinFn_eq (i : Nat) (op : String) (x y : α) (hx : V i x) (hy : V i y) :
+    eBinFn (env'.fld i) op x y = eBinFn (env.fld i) op x y ∧ V i (eBinFn (env.fld i) op x y) := by
+  unfold eBinFn
+  split
+  · exact ⟨(h.agree i).add x y hx hy, (h.closed i).add x y hx hy⟩
+  · split
+    · exact ⟨(h.agree i).sub x y hx hy, (h.closed i).sub x y hx hy⟩
+    · exact ⟨(h.agree i).mul x y hx hy, (h.closed i).mul x y hx hy⟩
+
+theorem eInPlace_eq (op : String) (a b : EReg α) (ha : V a.home a.val) (hb : V b.home b.val) :
+    eInPlace env' op a b = eInPlace env op a b ∧
+      V (eInPlace env op a b).1.home (eInPlace env op a b).1.val ∧
+      V (eInPlace env op a b).2.1.home (eInPlace env op a b).2.1.val := by
+  unfold eInPlace
+  rw [eCheck_eq h]
+  unfold eCheck
+  by_cases h1 : b.foreign = true
+  · rw [if_pos h1]; exact ⟨rfl, ha, ha⟩
+  · rw [if_neg h1]
+    by_cases h2 : a.err.isErr = true
+    · rw [if_pos h2]; exact ⟨rfl, ha, ha⟩
+    · rw [if_neg h2]
+      by_cases h3 : b.err.isErr = true
+      · rw [if_pos h3]; exact ⟨rfl, ha, hb⟩
+      · rw [if_neg h3]
+        by_cases h4 : a.home ≠ b.home
+        · rw [if_pos h4]
+          exact ⟨rfl, ha, (h.closed a.home).zero⟩
+        · rw [if_neg h4]
+          have hab : a.home = b.home := not_not.1 h4
+          obtain ⟨e1, e2⟩ := eBinFn_eq h a.home op a.val b.val ha (hab ▸ hb)
+          show (_ : EReg α × EReg α × Bool) = _ ∧ _
+          simp only [fld]
+          rw [e1]
+          exact ⟨rfl, e2, e2⟩
+
+theorem eProdFn_eq (a b c : EReg α) (bIsA cIsA : Bool) (ha : V a.home a.val) (hb : V b.home b.val)
+    (hc : V c.home c.val) :
+    eProdFn env' a b c bIsA cIsA = eProdFn env a b c bIsA cIsA ∧
+      V (eProdFn env a b c bIsA cIsA).1.home (eProdFn env a b c bIsA cIsA).1.val ∧
+      V (eProdFn env a b c bIsA cIsA).2.1.home (eProdFn env a b c bIsA cIsA).2.1.val := by
+  unfold eProdFn
+  by_cases h1 : (b.foreign || c.foreign) = true
+  · rw [if_pos h1, if_pos h1]; exact ⟨rfl, ha, ha⟩
+  · rw [if_neg h1, if_neg h1]
+    by_cases h2 : b.err.isErr = true
+    · rw [if_pos h2, if_pos h2]
+      cases bIsA
+      · exact ⟨rfl, ha, hb⟩
+      · exact ⟨rfl, hb, hb⟩
+    · rw [if_neg h2, if_neg h2]
+      by_cases h3 : c.err.isErr = true
+      · rw [if_pos h3, if_pos h3]
+        cases cIsA
+        · exact ⟨rfl, ha, hc⟩
+        · exact ⟨rfl, hc, hc⟩
+      · rw [if_neg h3, if_neg h3]
+        by_cases h4 : b.home ≠ c.home
+        · rw [if_pos h4, if_pos h4]
+          simp only [fld]
+          rw [(h.agree b.home).zero]
+          exact ⟨rfl, ha, (h.closed b.home).zero⟩
+        · rw [if_neg h4, if_neg h4]
+          have hbc : b.home = c.home := not_not.1 h4
+          simp only [fld]
+          rw [(h.agree b.home).mul b.val c.val hb (hbc ▸ hc)]
+          have := (h.closed b.home).mul b.val c.val hb (hbc ▸ hc)
+          exact ⟨rfl, this, this⟩
+
+theorem eBinRes_eq {s : St α} (hs : StoreOK V s) (op : String) (a b : Nat) :
+    eBinRes env' s op a b = eBinRes env s op a b ∧
+      V (eBinRes env s op a b).1.home (eBinRes env s op a b).1.val ∧
+      V (eBinRes env s op a b).2.1.home (eBinRes env s op a b).2.1.val := by
+  unfold eBinRes
+  rw [eGet_eq h, eGet_eq h]
+  split
+  · exact eProdFn_eq h _ _ _ _ _ (eGet_ok h hs a) (eGet_ok h hs a) (eGet_ok h hs b)
+  · exact eInPlace_eq h _ _ _ (eGet_ok h hs a) (eGet_ok h hs b)
+
+theorem eInRes_eq {s : St α} (hs : StoreOK V s) (op : String) (a b : Nat) :
+    eInRes env' s op a b = eInRes env s op a b ∧
+      V (eInRes env s op a b).1.home (eInRes env s op a b).1.val ∧
+      V (eInRes env s op a b).2.1.home (eInRes env s op a b).2.1.val := by
+  unfold eInRes
+  rw [eGet_eq h, eGet_eq h]
+  split
+  · exact eProdFn_eq h _ _ _ _ _ (eGet_ok h hs a) (eGet_ok h hs a) (eGet_ok h hs b)
+  · exact eInPlace_eq h _ _ _ (eGet_ok h hs a) (eGet_ok h hs b)
+
+theorem eProdRes_eq {s : St α} (hs : StoreOK V s) (a b c : Nat) :
+    eProdRes env' s a b c = eProdRes env s a b c ∧
+      V (eProdRes env s a b c).1.home (eProdRes env s a b c).1.val ∧
+      V (eProdRes env s a b c).2.1.home (eProdRes env s a b c).2.1.val := by
+  unfold eProdRes
+  rw [eGet_eq h, eGet_eq h, eGet_eq h]
+  exact eProdFn_eq h _ _ _ _ _ (eGet_ok h hs a) (eGet_ok h hs b) (eGet_ok h hs c)
+
+theorem ePowRes_eq {s : St α} (hs : StoreOK V s) (a n : Nat) :
+    ePowRes env' s a n = ePowRes env s a n ∧ V (ePowRes env s a n).home (ePowRes env s a n).val := by
+  unfold ePowRes
+  rw [eGet_eq h]
+  have ha := eGet_ok h hs a
+  simp only [fld]
+  split
+  · exact ⟨rfl, ha⟩
+  · rw [(h.agree _).pow _ n ha]
+    exact ⟨rfl, (h.closed _).pow _ n ha⟩
+
+theorem eUnRes_eq {s : St α} (hs : StoreOK V s) (op : String) (a : Nat) :
+    eUnRes env' s op a = eUnRes env s op a ∧ V (eUnRes env s op a).home (eUnRes env s op a).val := by
+  unfold eUnRes
+  rw [eGet_eq h]
+  have ha := eGet_ok h hs a
+  simp only [fld]
+  split
+  · exact ⟨rfl, ha⟩
+  · split
+    · rw [(h.agree _).neg _ ha]; exact ⟨rfl, (h.closed _).neg _ ha⟩
+    · split
+      · split
+        · exact ⟨rfl, ha⟩
+        · rw [(h.agree _).trace _ ha]; exact ⟨rfl, (h.closed _).trace _ ha⟩
+      · split
+        · exact ⟨rfl, ha⟩
+        · rw [(h.agree _).inv _ ha, (h.agree _).zero]
+          cases hi : (env.fld (eGet env s a).home).inv (eGet env s a).val with
+          | none => exact ⟨rfl, (h.closed _).zero⟩
+          | some v => exact ⟨rfl, (h.closed _).inv _ v ha hi⟩
+
+/-- one element-level operation: same new store, same reply, and the store stays valid -/
+theorem step_elem_agree (desc : FieldDesc) {s : St α} (hs : StoreOK V s) (op : Op)
+    (hop : elemOp op = true) :
+    step env' desc s op = step env desc s op ∧ StoreOK V (step env desc s op).1 := by
+  cases op <;> try (simp only [elemOp, Bool.false_eq_true] at hop; done)
+  case eCtor dst f how arg =>
+    simp only [elemOp, Bool.or_eq_true, beq_iff_eq] at hop
+    have key : ∀ v v' : α, v' = v → V f v →
+        (({ s with es := St.setL s.es dst { home := f, val := v' } },
+          "ok " ++ showE env' ({ home := f, val := v' } : EReg α)) : St α × String)
+        = ({ s with es := St.setL s.es dst { home := f, val := v } },
+          "ok " ++ showE env ({ home := f, val := v } : EReg α)) ∧
+        StoreOK V { s with es := St.setL s.es dst ({ home := f, val := v } : EReg α) } := by
+      intro v v' e hv
+      subst e
+      exact ⟨by rw [showE_eq h], hs.setE dst _ hv⟩
+    rcases hop with ((rfl | rfl) | rfl) | rfl
+    · exact key (env.fld f).zero (env'.fld f).zero (h.agree f).zero (h.closed f).zero
+    · exact key (env.fld f).one (env'.fld f).one (h.agree f).one (h.closed f).one
+    · exact key (env.fld f).gen (env'.fld f).gen (h.agree f).gen (h.closed f).gen
+    · refine ⟨?_, hs.setE dst { home := f, val := (env.fld f).zero, foreign := true } (h.closed f).zero⟩
+      show (({ s with es := St.setL s.es dst { home := f, val := (env'.fld f).zero, foreign := true } },
+        "ok foreign") : St α × String) = _
+      rw [(h.agree f).zero]
+      rfl
+  case eBin dst o a b =>
+    obtain ⟨e, -, hv⟩ := eBinRes_eq h hs o a b
+    rw [step_eBin, step_eBin, e, showE_eq h]
+    exact ⟨rfl, hs.setE _ _ hv⟩
+  case eUn dst o a =>
+    obtain ⟨e, hv⟩ := eUnRes_eq h hs o a
+    rw [step_eUn, step_eUn, e, showE_eq h]
+    exact ⟨rfl, hs.setE _ _ hv⟩
+  case ePow dst a n =>
+    obtain ⟨e, hv⟩ := ePowRes_eq h hs a n
+    rw [step_ePow, step_ePow, e, showE_eq h]
+    exact ⟨rfl, hs.setE _ _ hv⟩
+  case eIn o a b =>
+    obtain ⟨e, hv, -⟩ := eInRes_eq h hs o a b
+    rw [step_eIn, step_eIn, e, showE_eq h]
+    exact ⟨rfl, hs.setE _ _ hv⟩
+  case eProd a b c =>
+    obtain ⟨e, hv, -⟩ := eProdRes_eq h hs a b c
+    rw [step_eProd, step_eProd, e, showE_eq h]
+    exact ⟨rfl, hs.setE _ _ hv⟩
+  case eSetNeg a =>
+    have ha := eGet_ok h hs a
+    rw [step_eSetNeg, step_eSetNeg]
+    simp only [fld, eGet_eq h, showE_eq h]
+    rw [(h.agree _).neg _ ha]
+    exact ⟨rfl, hs.setE _ _ ((h.closed _).neg _ ha)⟩
+  case eEq a b =>
+    refine ⟨?_, hs⟩
+    show ((s, "eq " ++ toString (!(eGet env' s a).foreign && !(eGet env' s b).foreign &&
+        (eGet env' s a).home == (eGet env' s b).home &&
+        (fld env' (eGet env' s a).home).beq (eGet env' s a).val (eGet env' s b).val)) : St α × String) = _
+    simp only [fld, eGet_eq h, (h.agree _).beq]
+    rfl
+  case eShow a =>
+    refine ⟨?_, hs⟩
+    show ((s, "show z=" ++ toString ((fld env' (eGet env' s a).home).isZero (eGet env' s a).val) ++ " o=" ++
+        toString ((fld env' (eGet env' s a).home).isOne (eGet env' s a).val) ++
+        " n=" ++ toString ((fld env' (eGet env' s a).home).nTerms (eGet env' s a).val) ++ " s=" ++
+        (fld env' (eGet env' s a).home).toStr (eGet env' s a).val) : St α × String) = _
+    simp only [fld, eGet_eq h, (h.agree _).isZero, (h.agree _).isOne, (h.agree _).nTerms,
+      (h.agree _).toStr]
+    rfl
+  case tables f a m mm =>
+    exact ⟨rfl, fun k r hk => hs k r (by rw [(step_tables_regEq env desc s (.tables f a m mm) rfl).1]; exact hk)⟩
+
+/-- a whole history of element-level operations and table requests: same replies, same stores -/
+theorem runOps_elem_agree (desc : FieldDesc) (ops : List Op) (hops : ∀ op ∈ ops, elemOp op = true) :
+    ∀ {s : St α}, StoreOK V s → runOps env' desc s ops = runOps env desc s ops := by
+  induction ops with
+  | nil => intro s _; rfl
+  | cons op t ih =>
+    intro s hs
+    obtain ⟨e, hs'⟩ := step_elem_agree h desc hs op (hops op List.mem_cons_self)
+    simp only [runOps]
+    rw [e, ih (fun o ho => hops o (List.mem_cons_of_mem _ ho)) hs']
+
+end Step
 end Tables
 end Algobra
